@@ -244,6 +244,20 @@ Proof.
 Qed.
 Print Assumptions C02_image_characterised.
 
+(* Instruction-level lift of C02_canonical_reencodes (round 7): whatever single word the specification answers for a mnemonic, the operands
+   decoded from that word with the answering row are valid operands of that row and make the row produce the same word again - the
+   round trip word -> operands -> word holds for every instruction-level answer, not only row by row. *)
+Theorem C02_inst_canonical_reencodes : forall mn ops id ws, spec_a64_rows rows alt_table mn ops = Some (id, ws) ->
+  exists r w, In r rows /\ r_id r = id /\ ws = [w] /\
+              spec_row r (decode_row r w) = Some w /\ ops_valid (r_ops r) (decode_row r w) /\
+              canon (r_ops r) ops = Some (decode_row r w).
+Proof.
+  intros mn ops id ws H. destruct (C02_spec_a64_is_a_row mn ops id ws H) as (r & w & Hin & Hid & Hws & Hs & _).
+  exists r, w. destruct (C02_canonical_reencodes r ops w Hin Hs) as [A B].
+  repeat split; auto. exact (C02_operands_recovered r ops w Hin Hs).
+Qed.
+Print Assumptions C02_inst_canonical_reencodes.
+
 (* ---- non-vacuity on a hand-written row (ADD Xd, Xn, Xm with a zero shift): the hypotheses of the theorems above are satisfiable and the
    conclusions say something: the row is well formed, accepts x1, x2, x3 with the architectural word 8B030041, the operands are read back
    from that word, and SP (id 31) in a ZR position is refused. The generated coq/gen/IsaA64Db.v carries instruction-level Examples over
@@ -277,3 +291,6 @@ Example ex_row_image : forallb syn_bij (r_ops ex_row) = true /\ decode_row ex_ro
   /\ spec_row ex_row (decode_row ex_row 2332295362) = Some 2332295362
   /\ spec_row ex_row (decode_row ex_row 2332229697) = Some 2332229697.
 Proof. vm_compute. repeat split; reflexivity. Qed.
+(* non-vacuity of C02_inst_canonical_reencodes on the real rows: ADD x1, x2, x3 (mnemonic number 3 in the stable numbering) has an answer *)
+Example ex_inst_reencodes : exists id, spec_a64_rows rows alt_table 3 [OGp true 1; OGp true 2; OGp true 3] = Some (id, [2332229697]).
+Proof. vm_compute. eexists. reflexivity. Qed.
